@@ -255,6 +255,10 @@ fn one_case(run: &Run, case: u64) {
 /// Scale: subtree selections in a version of more than 10 000 one-entry hunks, on both sides of
 /// the index-subdirectory boundary.
 fn many_hunks(run: &Run) {
+    // once with one entry per hunk (10 000+ hunks, two index subdirectories), once with the
+    // default hunk size (one hunk of 10 000+ entries)
+    for o in [crate::history::MANY_HUNKS_OPTS, Opts { hunk: 100_000, ..crate::history::MANY_HUNKS_OPTS }] {
+    let label = format!("10 040-file tree, {}", o.label());
     let mut w = crate::history::many_hunks_world("c12big", run.seed);
     // a directory whose entries are recorded beyond hunk 10 000
     let mut spec = w.spec.clone();
@@ -264,7 +268,7 @@ fn many_hunks(run: &Run) {
     }
     w.set_spec(spec);
     run.eval();
-    if !w.backup(crate::history::MANY_HUNKS_OPTS).backup.unwrap().clean() {
+    if !w.backup(o).backup.unwrap().clean() {
         run.inconclusive("many-hunks backup not clean");
         return;
     }
@@ -275,7 +279,7 @@ fn many_hunks(run: &Run) {
     };
     let full_paths: Vec<&str> = full.iter().map(|e| e.apath.as_str()).collect();
     if full_paths.len() != w.snap.len() {
-        run.violation("full-listing-differs-from-tree", format!("[10 040-file tree, 1 entry per hunk] listing has {} entries, the tree {}", full_paths.len(), w.snap.len()), json!({"many_hunks": true}));
+        run.violation("full-listing-differs-from-tree", format!("[{label}] listing has {} entries, the tree {}", full_paths.len(), w.snap.len()), json!({"many_hunks": true}));
         return;
     }
     for s in ["/f00005", "/f09999", "/f10000", "/f10020", "/zdir", "/zdir/é", "/nonexistent"] {
@@ -284,7 +288,7 @@ fn many_hunks(run: &Run) {
         let got: Option<Vec<&str>> = l.value().map(|v| v.iter().map(|e| e.apath.as_str()).collect());
         run.count("subtree_listings_compared", 1);
         if got.as_ref() != Some(&want) {
-            run.violation("subtree-listing-differs-from-filtered-full-listing", format!("[10 040-file tree, 1 entry per hunk] subtree {s}: listed {got:?}, the full listing filtered gives {want:?}"), json!({"many_hunks": true}));
+            run.violation("subtree-listing-differs-from-filtered-full-listing", format!("[{label}] subtree {s}: listed {got:?}, the full listing filtered gives {want:?}"), json!({"many_hunks": true}));
             return;
         }
     }
@@ -293,10 +297,11 @@ fn many_hunks(run: &Run) {
     let got = tree::snapshot(&dest).map(|s| s.keys().cloned().collect::<Vec<_>>()).unwrap_or_default();
     run.count("subtree_restores_compared", 1);
     if !r.clean() || got != vec!["/".to_string(), "/zdir".into(), "/zdir/a".into(), "/zdir/z".into(), "/zdir/é".into()] {
-        run.violation("subtree-restore-differs-from-full-restore", format!("[10 040-file tree, 1 entry per hunk] restore of /zdir: {} created {got:?}", r.describe()), json!({"many_hunks": true}));
+        run.violation("subtree-restore-differs-from-full-restore", format!("[{label}] restore of /zdir: {} created {got:?}", r.describe()), json!({"many_hunks": true}));
         return;
     }
     run.count("subtree_selections_in_a_version_with_more_than_10000_hunks", 8);
+    }
 }
 
 pub fn run(tier: Tier, replay: Option<Value>) -> i32 {
@@ -311,9 +316,9 @@ pub fn run(tier: Tier, replay: Option<Value>) -> i32 {
         run.par_cases(tier.pick(400, 30000), super::threads(), |c| one_case(&run, c));
     }
     run.finish(
-        "generated trees over names with multi-byte characters and siblings extending one another ('/a','/ab','/a.b','/a b','/é','/éa','/é.b','/日','/日本',...), depth <= 4; listing: S over EVERY entry of the tree plus non-existent paths (children, and names extended by 'é'/'0'): iter_entries(version, S) must equal the entries of the full listing that are S or lie under S by whole components, in order and unmodified — also for a version stitched from a second backup that was killed before one of its last writes after entries under several subtrees were removed and added; restoring: S over every directory: no error, everything under dest/S identical (bytes, mtime ns, mode, owner) to the same subtree of a full restore, and outside S nothing but the ancestor directories of S. Also subtree listings and a subtree restore in a version of 10 040 files with one entry per hunk, for paths recorded on both sides of the index-subdirectory boundary. Non-trivial = tree has a non-empty directory with a multi-byte name or a sibling extending another name.",
+        "generated trees over names with multi-byte characters and siblings extending one another ('/a','/ab','/a.b','/a b','/é','/éa','/é.b','/日','/日本',...), depth <= 4; listing: S over EVERY entry of the tree plus non-existent paths (children, and names extended by 'é'/'0'): iter_entries(version, S) must equal the entries of the full listing that are S or lie under S by whole components, in order and unmodified — also for a version stitched from a second backup that was killed before one of its last writes after entries under several subtrees were removed and added; restoring: S over every directory: no error, everything under dest/S identical (bytes, mtime ns, mode, owner) to the same subtree of a full restore, and outside S nothing but the ancestor directories of S. Also subtree listings and a subtree restore in versions of 10 040 files, one with one entry per hunk (paths on both sides of the index-subdirectory boundary) and one with all entries in a single hunk. Non-trivial = tree has a non-empty directory with a multi-byte name or a sibling extending another name.",
         &["full listing and full restore are the reference (their own correctness is C01/C11)"],
         None,
-        &[("subtree_listings_compared", 200), ("stitched_subtree_listings_compared", 100), ("subtree_restores_compared", 50), ("trees_with_nonempty_multibyte_dir", 5), ("trees_with_sibling_extending_a_name", 5), ("subtree_selections_in_a_version_with_more_than_10000_hunks", 8)],
+        &[("subtree_listings_compared", 200), ("stitched_subtree_listings_compared", 100), ("subtree_restores_compared", 50), ("trees_with_nonempty_multibyte_dir", 5), ("trees_with_sibling_extending_a_name", 5), ("subtree_selections_in_a_version_with_more_than_10000_hunks", 16)],
     )
 }
